@@ -217,6 +217,135 @@ def unwrap_discharge(ctx, config, w):
     return n
 
 
+
+# ---------------------------------------------------------------- decimal range (derived operators)
+def decimal_range(ctx, config, w):
+    """For every by-value derived operator and every unit pair whose named
+    magnitudes can lie in range: every arithmetic node of the applicable branch
+    stays below the representable bound (see magn.py)."""
+    from . import magn, opforms, rules_c04, rules_c06, spec as S
+    U_ = w.U
+    amt = ws.amount_type(config)
+    stats = {"impls": 0, "pairs": 0, "vacuous": 0, "nodes": 0}
+    a_, b_ = S.P(0, "self"), S.P(1, "rhs")
+    fit_outs, fit_b, _ = G.summarize(U_, G.HRU + "_fit", set())
+
+    def qt(key):
+        return w.by_path.get(key)
+
+    def units_of(key):
+        """[(variant, scale)] and smallest scale of an operand type."""
+        if key == amt:
+            return [("One", Fraction(1))], Fraction(1)
+        q = qt(key)
+        rows = [(v, q.tables["scale"][v][1]) for v in q.variants_const]
+        return rows, min(s for _, s in rows)
+    for crate in w.crates:
+        for q in [x for x in w.qtypes if x.crate is crate and x.kind == "ref"]:
+            d = w.decl_of.get(q.path)
+            if d is None or d.derived is None:
+                continue
+            (A, op0, B) = d.derived
+            scope = q.path.rsplit("::", 1)[0]
+            Ap = rules_c06.resolve_ident(A, scope, w.qtypes, amt)
+            Bp = rules_c06.resolve_ident(B, scope, w.qtypes, amt)
+            if Ap is None or Bp is None:
+                continue
+            for (o, X, Y, Rr) in sorted(rules_c06.derived_closure(q.path, Ap, op0, Bp)):
+                found = opforms.find_op(w, crate, o, X, Y)
+                R = qt(Rr)
+                if len(found) != 1 or (R is None and Rr != amt):
+                    continue
+                imp = found[0][4]
+                body = U_.item_body(imp, opforms.OPFN[o])
+                ev = T.Evaluator(U_, keep_tags=True)
+                try:
+                    outs = [(g, k, T.canon(t)) for g, k, t in ev.summarize(body)]
+                except T.Unsupported as x:
+                    ctx.fail("decimal-range", "%s/%s %s %s" % (config, X, o, Y), "unsupported construct: " + x.what, x.sp or body["span"])
+                    continue
+                stats["impls"] += 1
+                UX = rules_c04.unit_path_of(w, X, amt)
+                UY = rules_c04.unit_path_of(w, Y, amt)
+                sa_t = T.canon(S.scale(S.unit(a_, tag=X), tag=UX))
+                sb_t = T.canon(S.scale(S.unit(b_, tag=Y), tag=UY))
+                am_a = T.canon(S.amount(a_, tag=X))
+                am_b = T.canon(S.amount(b_, tag=Y))
+                xrows, xmin = units_of(X)
+                yrows, ymin = units_of(Y)
+                if Rr == amt:
+                    rrows, rmin = [("One", Fraction(1))], Fraction(1)
+                    elig_min = Fraction(1)
+                else:
+                    rrows, rmin = units_of(Rr)
+                    ref_pref = R.tables["si_prefix"][R.ref_unit_hru] != ("none",)
+                    elig = [s for (v, s) in rrows if (R.tables["si_prefix"][v] != ("none",) or not ref_pref)]
+                    elig_min = min(elig)
+                rscales = {s for _, s in rrows}
+                worst = None
+                for (u, sa) in xrows:
+                    for (v, sb) in yrows:
+                        sigma = sa * sb if o == "*" else sa / sb
+                        sigma_dec = magn.round18(sigma)
+                        if not (magn.L <= sigma <= magn.U):
+                            stats["vacuous"] += 1
+                            continue
+                        alo = max(magn.L / sa, magn.L * xmin / sa)
+                        ahi = min(magn.U / sa, magn.U * xmin / sa)
+                        blo = max(magn.L / sb, magn.L * ymin / sb)
+                        bhi = min(magn.U / sb, magn.U * ymin / sb)
+                        rlo = max(magn.L, magn.L * rmin) / sigma
+                        rhi = min(magn.U, magn.U * rmin) / sigma
+                        reg = magn.Region(o, alo, ahi, blo, bhi, rlo, rhi)
+                        if not reg.vertices:
+                            stats["vacuous"] += 1
+                            continue
+                        stats["pairs"] += 1
+                        natural = sigma_dec in rscales
+                        sel = [(k, t) for (g, k, t) in outs if all((a[0] == "isvar") and (p == natural) for a, p in g)]
+                        if len(sel) != 1 or sel[0][0] != "val":
+                            ctx.fail("decimal-range", "%s/%s %s %s" % (config, X, o, Y), "cannot select the branch for a unit pair", body["span"])
+                            continue
+                        t = sel[0][1]
+
+                        def leaf(x, sa=sa, sb=sb):
+                            if x == am_a:
+                                return "a"
+                            if x == am_b:
+                                return "b"
+                            if x == sa_t:
+                                return sa
+                            if x == sb_t:
+                                return sb
+                            return None
+                        nodes = magn.arith_nodes(t)
+                        extra = []
+                        if t[0] == "app" and t[1] == "HasRefUnit::_fit" and len(t[3]) == 1:
+                            # inside _fit: amount / scale(u) for an eligible unit u (smallest: elig_min)
+                            extra.append(("/", t[3][0], ("num", elig_min, amt)))
+                        for n in nodes + extra:
+                            stats["nodes"] += 1
+                            try:
+                                bnd, wit = magn.bound(n, leaf, reg)
+                            except magn.NotMonomial as e:
+                                ctx.fail("decimal-range", "%s/%s %s %s/%s*%s" % (config, X, o, Y, u, v), "cannot bound node %s" % e, body["span"])
+                                continue
+                            if bnd >= magn.THRESH and (worst is None or bnd > worst[0]):
+                                worst = (bnd, n, u, v, wit, natural)
+                inst = "%s/%s %s %s" % (config, X, o, Y)
+                if worst is None:
+                    ctx.ob("decimal-range", inst, True, "", body["span"])
+                else:
+                    (bnd, n, u, v, wit, natural) = worst
+                    ctx.ob("decimal-range", inst, False,
+                           "decimal overflow for in-range magnitudes: with units (%s, %s) the intermediate %s can reach %.3g (representable: < %.3g) although every named magnitude "
+                           "(operands and result in reference and smallest units, combined scale) lies within [1e-15, 1e17] — e.g. amounts %.6g and %.6g with 9 fractional digits each; "
+                           "fpdec then panics with 'Internal representation exceeded'" % (u, v, T.show(n), float(bnd), float(magn.THRESH), float(wit[0]), float(wit[1])),
+                           body["span"])
+    ctx.extra["decimal_range"] = stats
+    return stats
+
+
 def run(ctx):
     total_bodies = 0
     for config in ("f64-all", "dec-all"):
@@ -235,6 +364,10 @@ def run(ctx):
             n = who_may_panic(ctx, config, w, crate)
         n = unwrap_discharge(ctx, config, w)
         ctx.floor("%s: unwrap discharge evaluations" % config, n, 250)
+        if amt != "f64":
+            st = decimal_range(ctx, config, w)
+            ctx.floor("%s: derived operators range-analysed" % config, st["impls"], 34 + 8)
+            ctx.floor("%s: unit pairs range-analysed" % config, st["pairs"], 1500)
     ctx.floor("library bodies inventoried", total_bodies, 1500)
     # positive control: the vocabulary must match the known sites
     ctx.ob("positive-control", "vocabulary", bool(PANIC_VOCAB.search("core::option::Option::<T>::unwrap")) and bool(PANIC_VOCAB.search("core::panicking::panic_fmt"))
